@@ -1575,18 +1575,14 @@ impl TestTextSelection for TextSelectionSet {
         }
         match operator {
             TextSelectionOperator::Equals { negate: false, .. } => {
-                if self.len() != refset.len() {
-                    //each item must have a counterpart so the sets must be equal length
-                    return false;
-                }
                 //ALL of the items in this set must match with ANY item in the otherset
                 for item in self.iter() {
                     if !item.test_set(operator, refset, resource) {
                         return false;
                     }
                 }
-                //and the other way round (a set may hold an item twice, so equal lengths
-                //do not make the inclusion mutual)
+                //and the other way round (the number of stored items says nothing: a set may
+                //hold an item twice)
                 for item in refset.iter() {
                     if !item.test_set(operator, self, resource) {
                         return false;
